@@ -43,6 +43,11 @@ func child(name string, fields ...string) *ir.Message {
 	return m
 }
 
+func tagNo(tag string) int {
+	n, _ := strconv.Atoi(tag)
+	return n
+}
+
 // BreakJSONRule builds a fragment that breaks exactly one JSON-mapping rule. pkgPrefix is
 // ".pkg." of the file the fragment will live in; tag makes names unique.
 func BreakJSONRule(r *R, rule, pkgPrefix, tag string) *Broken {
@@ -74,9 +79,19 @@ func BreakJSONRule(r *R, rule, pkgPrefix, tag string) *Broken {
 		}
 		b.Offender = "entries"
 	case "nullable_not_optional":
-		card := Pick(r, []string{"", "repeated"})
+		card := []string{"", "repeated", "oneof_member", "map"}[tagNo(tag)%4] // every variant within any four consecutive cases
 		b.Variant = "card=" + card
-		bad.Fields = []*ir.Field{{Name: "maybe", Number: 1, Kind: Pick(r, []string{"string", "int32", "bool"}), Card: card, Ann: ir.Ann{Nullable: bp(true)}}}
+		fl := &ir.Field{Name: "maybe", Number: 1, Kind: Pick(r, []string{"string", "int32", "bool"}), Card: card, Ann: ir.Ann{Nullable: bp(true)}}
+		bad.Fields = []*ir.Field{fl}
+		switch card {
+		case "oneof_member":
+			// a member of a REAL oneof has presence too, but is no proto3 `optional` field
+			fl.Card, fl.Oneof = "", "choice"
+			bad.Oneofs = []*ir.Oneof{{Name: "choice"}}
+			bad.Fields = append(bad.Fields, &ir.Field{Name: "other", Number: 2, Kind: "string", Oneof: "choice"})
+		case "map":
+			fl.MapKey = "string"
+		}
 		b.Offender = "maybe"
 	case "nullable_on_message":
 		b.Messages = append(b.Messages, child(C, "v"))
@@ -254,9 +269,13 @@ func BreakHTTPRule(r *R, rule, pkgPrefix, tag string) *Broken {
 			b.Offender = "tag"
 		}
 	case "path_var_non_scalar_kind":
-		k := Pick(r, []string{"message", "enum", "bytes"})
+		k := []string{"message", "enum", "bytes", "repeated enum"}[tagNo(tag)%4]
 		b.Variant = k
 		f := &ir.Field{Name: "id", Number: 1, Kind: k}
+		if k == "repeated enum" {
+			k = "enum"
+			f.Kind, f.Card = "enum", "repeated"
+		}
 		if k == "message" {
 			b.Messages = append(b.Messages, child(C, "v"))
 			f.TypeName = pkgPrefix + C
@@ -289,7 +308,12 @@ func BreakHTTPRule(r *R, rule, pkgPrefix, tag string) *Broken {
 		bad.Fields = []*ir.Field{{Name: "id", Number: 1, Kind: "string"}, {Name: "loose", Number: 2, Kind: "string"}}
 		meth.Config = &ir.HTTPConfig{Path: "/things/{id}", Method: Pick(r, []string{"GET", "DELETE"})}
 		b.Offender = "loose"
-		if r.Bool() {
+		if tagNo(tag)%2 == 1 {
+			// no path of its own (the default path, no variables): the rule is about the VERB
+			b.Variant = "default path"
+			bad.Fields = []*ir.Field{{Name: "loose", Number: 1, Kind: "string"}, {Name: "page", Number: 2, Kind: "int32", Ann: ir.Ann{Query: &ir.Query{Name: "page"}}}}
+			meth.Config = &ir.HTTPConfig{Method: Pick(r, []string{"GET", "DELETE"})}
+		} else if r.Bool() {
 			// the same request message is first used by a bodiless method that binds EVERY field
 			b.Variant = "after a method binding every field"
 			b.PreMethods = []*ir.Method{{Name: "Full" + tag, Config: &ir.HTTPConfig{Path: "/full/{id}/{loose}", Method: Pick(r, []string{"GET", "DELETE"})}}}
